@@ -8,7 +8,6 @@ package testscript
 //@ property C02: (*TestScript).parse, (*TestScript).Fatalf, (*TestScript).expand, expand$1, (*TestScript).Getenv, (*TestScript).Setenv, envvarname, (*TestScript).execBackground, (*TestScript).exec, (*TestScript).buildExecCmd, (*TestScript).cmdEnv, (*TestScript).run, (*TestScript).runLine
 //@ bounded C02: TestVerifBoundedTokenizer
 
-
 // parse (the line tokenizer): every index and slice of the line is in bounds for
 // every line; variable expansion is applied only to text outside single quotes;
 // the scan terminates.
